@@ -177,7 +177,7 @@ func replayC15(c *Ctx, rule string, raw json.RawMessage) {
 
 func runC15(c *Ctx, phase string) {
 	u := c.U
-	n := c.Pick(30000, 1000000)
+	n := c.Pick(300000, 2000000)
 	c.Meta("invalid strings prefix + bad + suffix: prefix = generated valid expression (containing listed and synthesised -or-later forms - zero to several per prefix -, '+', -only, multiple spaces, parentheses, refs, WITH) "+
 		"followed by an operator or '(' ; bad in {unknown id, 'LicenseRef-', 'DocumentRef-', 'LicenseRef-!x', a non-id byte, a multi-byte rune}; arbitrary suffix; passed to ExtractLicenses, to Satisfies as expression and "+
 		"as one allowed entry at a random position (exactly one argument invalid per call). Every offset-bearing message is checked against the caller's string. distinct = (function, invalid string); non-trivial = an offset-bearing error was returned",
@@ -187,6 +187,7 @@ func runC15(c *Ctx, phase string) {
 		c.Floor(fmt.Sprintf("offset_messages_after_%d_rewrites", i), 200)
 	}
 	c.Floor("message_unknown", 1000)
+	c.Floor("prefixes_with_or_later_plus", 500)
 	c.Floor("message_expected_id", 500)
 
 	bads := []string{"FOO", "Unknown-2.0", "LicenseRef-", "DocumentRef-", "LicenseRef-!x", "DocumentRef-:LicenseRef-a", "!", "#", "\t", "é", "日", "\x00", "_", "GPL-9.9-or-later", "mit-or-latr", "LicenseRef- x"}
@@ -201,6 +202,9 @@ func runC15(c *Ctx, phase string) {
 			if !tc.Terms[q].Ref && r.Chance(1, 2) {
 				id := r.Pick(u.SynthBase)
 				tc.Terms[q] = gen.Term{ID: id, Spell: gen.SpLater}
+				if r.Chance(1, 4) {
+					tc.Terms[q].Spell = gen.SpLaterPlus // X-or-later+ : the rewrite also swallows the explicit '+'
+				}
 				if r.Chance(1, 5) {
 					tc.Terms[q].Exc = r.Pick(u.Exceptions)
 				}
@@ -211,15 +215,19 @@ func runC15(c *Ctx, phase string) {
 			leaf[q] = t.Text()
 		}
 		prefix := tc.Tree.Render(leaf, gen.RenderOpt{Paren: r.Intn(3), Spaces: r.Chance(1, 2), R: r})
-		rewrites := 0
+		rewrites, laterPlus := 0, 0
 		for _, li := range tc.Tree.Leaves(nil) {
-			if !tc.Terms[li].Ref && tc.Terms[li].Spell == gen.SpLater {
+			if !tc.Terms[li].Ref && (tc.Terms[li].Spell == gen.SpLater || tc.Terms[li].Spell == gen.SpLaterPlus) {
 				rewrites++
+				if tc.Terms[li].Spell == gen.SpLaterPlus {
+					laterPlus++
+				}
 			}
 		}
 		if r.Chance(1, 8) {
-			prefix, rewrites = "", 0
+			prefix, rewrites, laterPlus = "", 0, 0
 		}
+		c.CountIf(laterPlus > 0, "prefixes_with_or_later_plus")
 		join := ""
 		if prefix != "" {
 			join = []string{" AND ", " OR ", " AND (", " OR ( ", "  AND  "}[r.Intn(5)]
